@@ -2,12 +2,32 @@
 //
 // Engine A (lib/bfs): exhaustive breadth-first enumeration of call histories on
 // the REAL BasePathFS over a REAL base (MemFS, OrefaFS) holding /secret,
-// /top/secret2 and B=/top/b, executed in lock-step on a standalone reference
-// file system of the same type whose root holds B's content. Oracle on every
-// call: (1) everything outside B in the base (node graph + exact mtimes) is
-// unchanged; (2) outcome kind, returned value and the tree below B equal the
-// reference's; (3) every returned / error-embedded path string equals the
-// reference's (modulo Clean) and does not show the base prefix.
+// /top/secret2 and B=/top/b (dir a, file f, file a/f), executed in lock-step on
+// a standalone reference file system of the same type whose root holds B's
+// content (same calls, umask 022, fixed mtimes). No sampling.
+//
+// Oracle on every call:
+//  1. everything outside B in the base (node-graph lines of VerifDump + exact
+//     mtimes) is unchanged                                -> kind outside-changed
+//  2. outcome kind, returned value and the tree below B (prefix stripped, mtime
+//     classes) equal the reference's  -> kinds outcome, value, b-tree, panic;
+//     a read-only call that answers from outside B        -> kind outside-read
+//  3. every returned / error-embedded path string equals the reference's
+//     modulo Clean                                        -> kinds value, error-path;
+//     it names the base path although no argument and no virtual node does
+//     -> kind leak
+//     and the base's cwd stays what the reference's is    -> kind cwd
+//
+// Not demanded (counted as informational notes in the evidence, never
+// reported): calls on which the reference itself panics/deadlocks
+// (ref-defect), and - OrefaFS - calls that must address the reference's root
+// "/", which OrefaFS cannot, while B in the base is an ordinary directory
+// (ref-root-unaddressable).
+//
+// Alphabet and levels: see ops.go. Files: ops.go (alphabet), exec.go (calls and
+// outcome capture), sys.go (system, oracle, signatures), bench.go (dev aid).
+//
+//	./check C10 quick|thorough [-depth n] [-systems MemFS,OrefaFS] [-replay replays/C10-xxxx.json]
 package main
 
 import (
@@ -227,7 +247,8 @@ func main() {
 			st.System, len(ops), perLevel[1], perLevel[2], perLevel[3], st.States, st.Transitions-n, n, st.DepthDone, d, st.Exhaustive, st.WorkerCrashes)
 
 		// the per-class outcome table is large: keep only its size in the evidence
-		st.Outcomes = map[string]int{"distinct_classes": len(st.Outcomes)}
+		st.Outcomes = map[string]int{"distinct_classes": len(st.Outcomes), "not_applicable_skipped": n}
+		st.Transitions -= n
 	}
 
 	if len(samples) == 0 {
@@ -286,7 +307,7 @@ func main() {
 			"bound":                  bound,
 			"not_applicable_skipped": na,
 			"systems":                all,
-			"known_findings_matched": rep.KnownMatched(),
+			"known_findings_matched": append([]string{}, rep.KnownMatched()...),
 			"violation_instances":    rep.Total,
 			"informational": map[string]any{
 				"totals":                 noteTotals,
